@@ -58,6 +58,9 @@ v_ext() { # name
 v_failflag() { # name code
   if [ -e "$RV_CTL/fail.$1" ]; then v_exit "$2"; fi
 }
+v_failflag_direct() { # name code: fail iff the flag exists, after writing the target file directly
+  if [ -e "$RV_CTL/fail.$1" ]; then printf 'scribble %s\n' "$RV_T" > "$RV_A1"; v_exit "$2"; fi
+}
 v_work() { # gate id: announce, block until the harness opens the gate FIFO for writing, announce again
   rv_tr "W|$RV_T|$1|$$"
   if [ -n "${RV_EVENTS:-}" ]; then
